@@ -1,6 +1,19 @@
 """Per-property configuration of the check driver (streams, sizes, notes)."""
 
 CHECKS = {
+    "C05": {
+        "streams": [{"name": "scan.ops", "quick": 30000, "thorough": 1000000}],
+        "rule": "scan.ops: fixed corpus of lexical corner cases + random concatenations of 0-8 token-like fragments "
+                "(keywords in random case, bare/quoted identifiers, strings incl. unterminated and bad escapes, numbers, durations, "
+                "all operator spellings, both comment forms, $params, /regex/, odd Unicode, invalid UTF-8 or NUL) joined by "
+                "nothing or by space/tab/LF/CR/CRLF mixes; one case in five may contain NUL; one in six starts with a random "
+                "Scan/ScanRegex prefix; compared: token kind, position, literal and consumed-rune count of every token; "
+                "non-trivial = at least three tokens",
+        "trusted_base": [
+            "modelled, not verified: UTF-8 decoding by bufio.Reader.ReadRune (the model starts from the runes Go decodes); "
+            "the 3-slot rings (the model is a pure cursor; the verif hook asserts the push-back depth in the implementation)"],
+        "assumptions": ["STRING-family positions and NUL handling are recorded known findings (see known_findings.json)"],
+    },
     "C08": {
         "streams": [
             {"name": "dur.parse", "quick": 20000, "thorough": 400000},
